@@ -162,6 +162,8 @@ def main(run):
             elif not set(got["log"]) <= set(sites):
                 bad = f"evaluated unknown sites {got['log']}"
         if bad:
+            if rec["ctx"] == "op-le" and len(rec["elems"]) == 1 and rec["elems"][0] in ("plain", "kw") and "not in the compiled code" in bad:
+                key = "comparison operator with a single argument"
             run.violation(key, f"{form}: {bad}", {"program": text, "spec": rec, "got": got})
         else:
             run.cov["traces_validated_against_impl"] += 1
